@@ -936,7 +936,7 @@ func prefixMatches(comp string, prefixes map[string]bool) bool {
 		if comp == p || strings.HasPrefix(comp, p+".") {
 			return true
 		}
-		if (p == "Map." || p == "Ghost.") && strings.HasPrefix(comp, p) {
+		if (p == "Map." || p == "Ghost." || p == "Mem.") && strings.HasPrefix(comp, p) {
 			return true
 		}
 	}
